@@ -124,8 +124,15 @@ def main():
         print(f"no harness for {prop}")
         return 3
     jobs = []
+    lim = spec.get("cfg_limit", {}).get(tier)
     for h in hs:
-        for ck, cfg in h.configs(tier):
+        cfgs = h.configs(tier)
+        if lim and len(cfgs) > lim and not args.cfg:
+            # this property's clauses (frame / no-exception) do not depend on the soil catalogue: an evenly spaced subset of the
+            # harness's configurations is explored in this tier (the full set in the thorough tier)
+            step = len(cfgs) / float(lim)
+            cfgs = [cfgs[int(i * step)] for i in range(lim)]
+        for ck, cfg in cfgs:
             if args.cfg and not re.search(args.cfg, ck):
                 continue
             jobs.append((h.name, ck, cfg))
